@@ -309,3 +309,14 @@ def trace(g, start, atom, stop=(), iter_decide=None, maxsteps=400, visit=None):
         if len(normal) > 1:
             raise Undetermined("ambiguous successor at %r" % n)
         n = normal[0]
+
+
+def targets_of(ctx, fn, call):
+    """Package functions a call may reach according to the call graph (including name over-approximation)."""
+    out = []
+    for site in ctx.cg.sites.get(fn, []):
+        if site.node is call:
+            for t in site.targets:
+                if t[0] == "pkg" and t[1] not in out:
+                    out.append(t[1])
+    return out
